@@ -81,7 +81,7 @@ func runC08(c *core.Ctx) {
 		c.Eval(int64(len(seen)))
 	}
 
-	R := c.Pick(8, 40)
+	R := c.Pick(8, 200)
 	// one long-lived attester per worker process: every client uses the SAME anonymous origin ID for all its
 	// origins there, so state accumulated by earlier requests (of this or another origin) is in place
 	persistent := type3.NewRateLimitedAttester(newMemCache())
